@@ -785,6 +785,40 @@ def fam_resume(out, tier, rnd):
                                 w.lost(A, "done"); drain(w, 3)
                                 out.done(w)
 
+
+# ------------------------------------------------------------------------------------------------ connect() after the loss, same protocol object
+def fam_deadconnect(out, tier, rnd):
+    """C04 speaks of "an idle protocol": that includes a protocol whose connection has been lost.  connect() is called
+    again on such a protocol object (plainly after the loss, from the errback of a request failed by the loss, from
+    onDisconnection), with the first handshake's timeout still to come.  Judged for C04 only (every other property is
+    stated under A1: no connect() on a protocol whose transport is gone)                                       (C04)"""
+    for prof in ("pub", "sub", "both"):
+        for ka in (0, 3):
+            for early in ((), (1,), (2, 1)):
+                if prof == "sub" and early:
+                    continue
+                for how in ("plain", "errback", "onDisconnection"):
+                    if how == "errback" and not early:
+                        continue
+                    for clean in (True, False):
+                        for later in ("timeouts", "connack-late"):
+                            w = out.world(prof, meta={"reactive": 1} if how != "plain" else None)
+                            w.build(A); w.set(A, "onDisconnection", 1)
+                            w.connect(A, keepalive=ka, cleanStart=clean)
+                            hs = []
+                            for q in early:
+                                w.publish(A, "t", "e%d" % q, q); hs.append(last_handle(w))
+                            again = lambda: w.connect(A, keepalive=ka, cleanStart=clean)
+                            if how == "errback" and clean:
+                                w.on_deferred(hs[0], "fail", again)
+                            elif how == "onDisconnection":
+                                w.on_cb(A, "onDisconnection", again)
+                            w.lost(A, "lost")
+                            if how == "plain" or (how == "errback" and not clean):
+                                again()
+                            drain(w, 6)
+                            out.done(w)
+
 # ------------------------------------------------------------------------------------------------ react (stage 3)
 def actions(w):
     """what an application may do from inside a callback"""
@@ -926,7 +960,7 @@ def main():
     outdir, fam, tier, seed = sys.argv[1], sys.argv[2], sys.argv[3], int(sys.argv[4])
     rnd = random.Random(seed)
     out = Out(outdir)
-    {"handshake": fam_handshake, "inject": fam_inject, "args": fam_args, "react": fam_react, "refused": fam_refused, "refstate": fam_refstate, "ids": fam_ids, "retrygrid": fam_retrygrid, "inbound2": fam_inbound2, "resume": fam_resume}[fam](out, tier, rnd)
+    {"handshake": fam_handshake, "inject": fam_inject, "args": fam_args, "react": fam_react, "refused": fam_refused, "refstate": fam_refstate, "ids": fam_ids, "retrygrid": fam_retrygrid, "inbound2": fam_inbound2, "resume": fam_resume, "deadconnect": fam_deadconnect}[fam](out, tier, rnd)
     out.close()
 
 
